@@ -36,6 +36,7 @@ type c05Case struct {
 	Details int    `json:"details"`
 	After   int    `json:"after_replies"`
 	SendHdr bool   `json:"handler_calls_SendHeader_first,omitempty"` // the handler sends its headers, then fails
+	Plain   bool   `json:"plain_response_writer,omitempty"`          // the ResponseWriter offers Header/Write/WriteHeader only (no Flush, no Hijack)
 }
 
 var c05Codes = []uint32{1, 2, 3, 4, 5, 6, 7, 8, 9, 10, 11, 12, 13, 14, 15, 16, 17, 18, 100, 1 << 31, 1<<32 - 1}
@@ -75,17 +76,29 @@ func c05Details(n int) []proto.Message {
 	return ds[:n]
 }
 
+// c05Anys: the details as they travel. n == 4: a known detail followed by one of a type nobody
+// here has a descriptor for (a proxy relays such details from its back-ends all the time).
+func c05Anys(n int) []*anypb.Any {
+	var out []*anypb.Any
+	if n == 4 {
+		a, _ := anypb.New(wrapperspb.String("detail-one"))
+		return []*anypb.Any{a, {TypeUrl: "type.googleapis.com/verif.unknown.Detail", Value: []byte{0x0a, 0x03, 'a', 'b', 'c', 0x10, 0x07}}}
+	}
+	for _, d := range c05Details(n) {
+		a, err := anypb.New(d)
+		if err != nil {
+			panic(err)
+		}
+		out = append(out, a)
+	}
+	return out
+}
+
 func c05Err(tc *c05Case) error {
 	st := status.New(codes.Code(tc.Code), tc.Message)
 	if tc.Details > 0 {
 		p := st.Proto()
-		for _, d := range c05Details(tc.Details) {
-			a, err := anypb.New(d)
-			if err != nil {
-				panic(err)
-			}
-			p.Details = append(p.Details, a)
-		}
+		p.Details = append(p.Details, c05Anys(tc.Details)...)
 		st = status.FromProto(p)
 	}
 	return st.Err()
@@ -136,38 +149,42 @@ func (e *c05Env) exec(tc *c05Case) (oracle, note string) {
 	js, _ := protojson.Marshal(reqMsg)
 	full := "/vs.T/" + shapeMethod[tc.Shape]
 	var res *callResult
+	var mux http.Handler = e.mux
+	if tc.Plain {
+		mux = plainMux{e.mux}
+	}
 	switch tc.Proto {
 	case "http-json":
-		res = doHTTP(e.mux, "POST", shapeRoute[tc.Shape], "", http.Header{"Content-Type": {"application/json"}}, reqBody{Data: js, CL: -2})
+		res = doHTTP(mux, "POST", shapeRoute[tc.Shape], "", http.Header{"Content-Type": {"application/json"}}, reqBody{Data: js, CL: -2})
 	case "http-proto":
-		res = doHTTP(e.mux, "POST", shapeRoute[tc.Shape], "", http.Header{"Content-Type": {"application/protobuf"}, "Accept": {"application/protobuf"}}, reqBody{Data: pb, CL: -2})
+		res = doHTTP(mux, "POST", shapeRoute[tc.Shape], "", http.Header{"Content-Type": {"application/protobuf"}, "Accept": {"application/protobuf"}}, reqBody{Data: pb, CL: -2})
 	case "http-implicit":
-		res = doHTTP(e.mux, "POST", full, "", http.Header{}, reqBody{Data: js, CL: -2})
+		res = doHTTP(mux, "POST", full, "", http.Header{}, reqBody{Data: js, CL: -2})
 	case "twirp-json":
-		res = doHTTP(e.mux, "POST", full, "", http.Header{"Content-Type": {"application/json"}, "Twirp-Version": {"v8.1.0"}}, reqBody{Data: js, CL: -2})
+		res = doHTTP(mux, "POST", full, "", http.Header{"Content-Type": {"application/json"}, "Twirp-Version": {"v8.1.0"}}, reqBody{Data: js, CL: -2})
 	case "twirp-proto":
-		res = doHTTP(e.mux, "POST", full, "", http.Header{"Content-Type": {"application/protobuf"}, "Twirp-Version": {"v8.1.0"}}, reqBody{Data: pb, CL: -2})
+		res = doHTTP(mux, "POST", full, "", http.Header{"Content-Type": {"application/protobuf"}, "Twirp-Version": {"v8.1.0"}}, reqBody{Data: pb, CL: -2})
 	case "grpc", "grpc+proto":
-		res = doGRPC(e.mux, full, "application/"+tc.Proto, nil, reqBody{Data: wire.GRPCFrame(0, pb)})
+		res = doGRPC(mux, full, "application/"+tc.Proto, nil, reqBody{Data: wire.GRPCFrame(0, pb)})
 	case "grpc+json":
-		res = doGRPC(e.mux, full, "application/grpc+json", nil, reqBody{Data: wire.GRPCFrame(0, js)})
+		res = doGRPC(mux, full, "application/grpc+json", nil, reqBody{Data: wire.GRPCFrame(0, js)})
 	case "web", "web+proto":
-		res = doWeb(e.mux, full, "application/grpc-"+tc.Proto, nil, reqBody{Data: wire.GRPCFrame(0, pb)})
+		res = doWeb(mux, full, "application/grpc-"+tc.Proto, nil, reqBody{Data: wire.GRPCFrame(0, pb)})
 	case "web+json":
-		res = doWeb(e.mux, full, "application/grpc-web+json", nil, reqBody{Data: wire.GRPCFrame(0, js)})
+		res = doWeb(mux, full, "application/grpc-web+json", nil, reqBody{Data: wire.GRPCFrame(0, js)})
 	case "webtext", "webtext+proto":
-		res = doWeb(e.mux, full, "application/grpc-web-text"+strings.TrimPrefix(tc.Proto, "webtext"), nil, reqBody{Data: wire.GRPCFrame(0, pb)})
+		res = doWeb(mux, full, "application/grpc-web-text"+strings.TrimPrefix(tc.Proto, "webtext"), nil, reqBody{Data: wire.GRPCFrame(0, pb)})
 	case "grpc-gzip", "web-gzip", "webtext-gzip":
 		// gzip message compression negotiated: replies are compressed frames, the status follows them
 		hdr := http.Header{"Grpc-Encoding": {"gzip"}, "Grpc-Accept-Encoding": {"gzip"}}
 		frame := wire.GRPCFrame(1, gzipBytes(pb))
 		switch tc.Proto {
 		case "grpc-gzip":
-			res = doGRPC(e.mux, full, "application/grpc", hdr, reqBody{Data: frame})
+			res = doGRPC(mux, full, "application/grpc", hdr, reqBody{Data: frame})
 		case "web-gzip":
-			res = doWeb(e.mux, full, "application/grpc-web+proto", hdr, reqBody{Data: frame})
+			res = doWeb(mux, full, "application/grpc-web+proto", hdr, reqBody{Data: frame})
 		default:
-			res = doWeb(e.mux, full, "application/grpc-web-text", hdr, reqBody{Data: frame})
+			res = doWeb(mux, full, "application/grpc-web-text", hdr, reqBody{Data: frame})
 		}
 	case "ws":
 		res = doWS(e.mux, "/ws/"+tc.Shape, "", nil, wsText(js), nil)
@@ -206,8 +223,7 @@ func (e *c05Env) exec(tc *c05Case) (oracle, note string) {
 	inRange := tc.Code <= 16
 	wantDetails := func() [][]byte {
 		var out [][]byte
-		for _, d := range c05Details(tc.Details) {
-			a, _ := anypb.New(d)
+		for _, a := range c05Anys(tc.Details) {
 			b, _ := proto.MarshalOptions{Deterministic: true}.Marshal(a)
 			out = append(out, b)
 		}
@@ -257,7 +273,10 @@ func (e *c05Env) exec(tc *c05Case) (oracle, note string) {
 		if res.Status.Message != tc.Message {
 			return "message-mismatch", fmt.Sprintf("sent %q got %q", tc.Message, res.Status.Message)
 		}
-		if !sameDetails(res.Status.Details) {
+		if tc.Details == 4 && wantCT == "application/json" {
+			// a detail of an unknown type has no JSON form: a response with the code and the
+			// message is demanded, the details are not
+		} else if !sameDetails(res.Status.Details) {
 			return "details-mismatch", fmt.Sprintf("sent %d details got %d", tc.Details, len(res.Status.Details))
 		}
 	case strings.HasPrefix(tc.Proto, "twirp"):
@@ -381,7 +400,7 @@ func c05Cases(thorough bool) []c05Case {
 				// every code × a few messages × details
 				for _, code := range c05Codes {
 					for _, m := range few {
-						for d := 0; d <= 3; d++ {
+						for d := 0; d <= 4; d++ {
 							out = append(out, c05Case{Proto: p, Shape: sh, Code: code, Message: m, Details: d, After: after})
 						}
 					}
@@ -406,6 +425,17 @@ func c05Cases(thorough bool) []c05Case {
 						out = append(out, c05Case{Proto: p, Shape: sh, Code: 13, Message: m, Details: d, After: after})
 					}
 				}
+				// a ResponseWriter that is not a Flusher (a middleware wrapping the writer in a plain
+				// struct): whatever larking buffers must still be completed
+				if p == "web" || p == "web+json" || p == "webtext" || p == "webtext+proto" || p == "webtext-gzip" || p == "http-json" || p == "http-proto" || p == "twirp-json" {
+					for _, code := range []uint32{5, 8, 13} {
+						for _, m := range []string{"", "p", "pl", "pla", "a%b é\n", strings.Repeat("y", 122) + "é"} {
+							for d := 0; d <= 2; d++ {
+								out = append(out, c05Case{Proto: p, Shape: sh, Code: code, Message: m, Details: d, After: after, Plain: true})
+							}
+						}
+					}
+				}
 				// every message × two codes (one shape per protocol unless thorough)
 				if sh != "unary" && sh != "ss" && sh != "bidi" && !thorough {
 					continue
@@ -426,7 +456,7 @@ func c05Cases(thorough bool) []c05Case {
 
 func runC05(c *Ctx) {
 	r := c.Run
-	r.Rule("protocol{HTTP json/proto/implicit route, Twirp json/proto, gRPC (+proto,+json), gRPC-web (+proto,+json), gRPC-web-text (+proto), gRPC / gRPC-web / gRPC-web-text with gzip message compression negotiated, WebSocket} × shape{unary, client-, server-, bidi-streaming} × error position{before any reply, before any reply but after grpc.SendHeader, after 1, after 2} × code{1..16,17,18,100,2^31,2^32-1} × message{all strings of length <= 3 over {a,%,space,\\n,é} (thorough: length <= 4 over those plus DEL, NUL, a 4-byte rune, '+', '4'), %41, CJK, DEL, control chars, 200×x, lengths 119..126 with and without a multi-byte rune on the close-frame boundary} × details{0,1,2,3 (the third 3 KiB)}; messages of 2011/2012/4059/4060/6000/70000 bytes and 700 CJK characters × details on every protocol, shape and position; plus three messages that are not valid UTF-8 (only 'an error response is produced' is demanded); distinct = (protocol, shape, position, code class, message class) combinations that produced a decodable status")
+	r.Rule("protocol{HTTP json/proto/implicit route, Twirp json/proto, gRPC (+proto,+json), gRPC-web (+proto,+json), gRPC-web-text (+proto), gRPC / gRPC-web / gRPC-web-text with gzip message compression negotiated, WebSocket} × shape{unary, client-, server-, bidi-streaming} × error position{before any reply, before any reply but after grpc.SendHeader, after 1, after 2} × code{1..16,17,18,100,2^31,2^32-1} × message{all strings of length <= 3 over {a,%,space,\\n,é} (thorough: length <= 4 over those plus DEL, NUL, a 4-byte rune, '+', '4'), %41, CJK, DEL, control chars, 200×x, lengths 119..126 with and without a multi-byte rune on the close-frame boundary} × details{0,1,2,3 (the third 3 KiB), and a known detail followed by one of a type without a descriptor}; messages of 2011/2012/4059/4060/6000/70000 bytes and 700 CJK characters × details on every protocol, shape and position; plus HTTP, Twirp, gRPC-web and gRPC-web-text behind a ResponseWriter without Flush (message lengths of every residue mod 3); plus three messages that are not valid UTF-8 (only 'an error response is produced' is demanded); distinct = (protocol, shape, position, code class, message class) combinations that produced a decodable status")
 	r.Assume("CANCELLED may map to 408 or 499; Twirp HTTP statuses and Twirp names of out-of-range codes are not demanded; the WebSocket close code is larking's exported WSStatusCode table (pinned in ref/wire); error framing after HTTP stream messages is not demanded", "leading/trailing spaces of the message are not representable in a gRPC-web trailer frame and are not compared there")
 	cases := c05Cases(c.Thorough())
 	envs := make([]*c05Env, explore.Workers)
@@ -439,14 +469,14 @@ func runC05(c *Ctx) {
 		r.Eval(1)
 		if oracle != "" {
 			r.Outcome("FAIL:" + oracle)
-			r.Violation(report.Violation{Oracle: oracle, Key: fmt.Sprintf("%s proto=%s shape=%s after=%d sendheader=%v code=%d details=%d msg=%q", oracle, tc.Proto, tc.Shape, tc.After, tc.SendHdr, tc.Code, tc.Details, truncS(tc.Message, 40)), Case: *tc, Note: note})
+			r.Violation(report.Violation{Oracle: oracle, Key: fmt.Sprintf("%s proto=%s shape=%s after=%d sendheader=%v plain-writer=%v code=%d details=%d msg=%q", oracle, tc.Proto, tc.Shape, tc.After, tc.SendHdr, tc.Plain, tc.Code, tc.Details, truncS(tc.Message, 40)), Case: *tc, Note: note})
 		} else {
 			r.Outcome("status-delivered:" + strings.SplitN(tc.Proto, "+", 2)[0])
 			cls := "in-range"
 			if tc.Code > 16 {
 				cls = "out-of-range"
 			}
-			r.Distinct(fmt.Sprintf("%s|%s|%d|%s|%d|%d", tc.Proto, tc.Shape, tc.After, cls, tc.Details, len(tc.Message)))
+			r.Distinct(fmt.Sprintf("%s|%s|%d|%s|%d|%d|%v", tc.Proto, tc.Shape, tc.After, cls, tc.Details, len(tc.Message), tc.Plain))
 		}
 		if r.WantSample() && i%3001 == 9 {
 			r.Sample(*tc)
